@@ -72,6 +72,7 @@ func main() {
 	runOver()
 	runEuclidShapes()
 	runCosetErrors()
+	runFullCapacityShapes()
 	runDMValues()
 	runQRValues()
 	runTwinBlocks()
